@@ -139,6 +139,9 @@ def eval_call(I, st, node):
 
 
 def call_value(I, st, fv, args, kwargs, node):
+    if fv.ty == "Fun" and z3.is_expr(fv.term):
+        from . import asyncio_model
+        return asyncio_model.call_opaque(I, st, fv, args, kwargs, node)
     if fv.ty == "Fun":
         kind = fv.term[0]
         if kind == "func":
@@ -511,6 +514,15 @@ def call_repo(I, st, fi, args, kwargs, node, is_property=False, static=False):
         return Val("Gen", (fi, argmap))
     if fi.is_async:
         argmap = bind_args(I, st, fi, args, kwargs, node, c)
+        if c is not None and c.requires and not c.inline and st.spec_depth == 0 and st.frame.func is not None:
+            # a coroutine handed to a task pool / gather starts later: its precondition is demanded where it is created
+            # (and must be stable under the rely, which is the contract author's obligation -- see DESIGN)
+            from . import specs
+            site = "%s.spawn[%s#%d]" % (I.short(st.frame.func), fi.name, call_ordinal(I, st, node, fi.name))
+            for cl in c.requires:
+                g = specs.eval_clause(I, st, cl, dict(argmap), fi)
+                st.oblige("%s.pre[%s]" % (site, cl.label), g, meta={"kind": "call_pre", "callee": fi.qualname, "clause": cl.text,
+                                                                   "line": getattr(node, "lineno", None)})
         return Val("Coro", (fi, argmap))
     if fi.is_ctxmgr:
         argmap = bind_args(I, st, fi, args, kwargs, node, c)
@@ -643,10 +655,19 @@ class Every:
         self.term = None
         self.ty = ("Ref", cls)
 
+    obj = None      # owned(x): restricted to the single object x and the containers it owns
+
     def covers_object(self, st, o):
+        if self.obj is not None:
+            return o == self.obj
         return st.cls_is(o, self.cls)
 
     def covers_content(self, I, st, r):
+        if self.obj is not None:
+            return z3.And(prelude.owner_obj(r) == self.obj, self._covers_content(I, st, r))
+        return self._covers_content(I, st, r)
+
+    def _covers_content(self, I, st, r):
         if REG.get(self.cls).kind != "object":
             return st.cls_is(r, self.cls)        # every(ValueMap): the containers themselves
         fids = []
@@ -674,6 +695,13 @@ def _modifies_one(I, st, env, mn, out):
             out.append((Every(cls, only=want), keys))
             return
         out.append((Every(cls), keys))
+        return
+    if isinstance(mn, ast.Call) and isinstance(mn.func, ast.Name) and mn.func.id == "owned":
+        v = specs.eval_spec(I, st, mn.args[0], env)
+        cls = strip_opt(v.ty)[1]
+        ev = Every(cls)
+        ev.obj = v.term
+        out.append((ev, I.object_keys(cls)))
         return
     if True:
         if isinstance(mn, ast.Call) and isinstance(mn.func, ast.Name) and mn.func.id == "content":
